@@ -51,11 +51,24 @@ impl Ctx {
     pub fn new(out: &str, tier: &str, seed: u64, replay: Option<String>) -> Ctx {
         std::fs::create_dir_all(out).unwrap();
         let f = |n: &str| BufWriter::new(File::create(format!("{out}/{n}")).unwrap());
-        let replay = replay.map(|p| {
+        let mut tier = tier.to_string();
+        let mut seed = seed;
+        let replay: Option<Vec<String>> = replay.map(|p| {
             BufReader::new(File::open(&p).expect("replay file")).lines().map(|l| l.unwrap())
                 .filter(|l| !l.starts_with('#') && !l.trim().is_empty()).collect()
         });
-        Ctx { tier: tier.into(), seed, rng: Rng(seed ^ 0x5EED_0000_0000_0000), replay,
+        // "@seed <seed> <tier>": a stateful family replays by regenerating the run from its seed
+        let replay = replay.map(|ls: Vec<String>| {
+            let mut rest = vec![];
+            for l in ls {
+                if let Some(r) = l.strip_prefix("@seed ") {
+                    let t: Vec<&str> = r.split_whitespace().collect();
+                    if t.len() == 2 { seed = t[0].parse().unwrap_or(seed); tier = t[1].to_string(); }
+                } else { rest.push(l); }
+            }
+            rest
+        });
+        Ctx { tier: tier.clone(), seed, rng: Rng(seed ^ 0x5EED_0000_0000_0000), replay,
               ops: f("ops.txt"), imp: f("impl.txt"), oracle: f("oracle.txt"),
               stats: BTreeMap::new(), samples: vec![], n_ops: 0, n_oracle_fail: 0, out: out.into(),
               distinct: Default::default() }
@@ -86,7 +99,8 @@ impl Ctx {
     pub fn oracle_fail(&mut self, key: &str, what: &str, replay: &[String]) {
         self.n_oracle_fail += 1;
         if self.n_oracle_fail <= 200 {
-            let rp = replay.join("\\n");
+            let mut rp = format!("@seed {} {}", self.seed, self.tier);
+            for l in replay { rp.push_str("\\n"); rp.push_str(l); }
             writeln!(self.oracle, "{key}\t{what}\t{rp}").unwrap();
         }
     }
